@@ -219,4 +219,43 @@ theorem chainBound_le (n : Nat) (rc ec : BVec) (h : ChainBound n rc ec) : bsfWt 
   have h2 := sum_le_of_forall₂ paths dists hw
   rw [hrc]; omega
 
+/-! ### building `ChainBound` from a list of pairs -/
+
+theorem forall₂_map_of_forall {α : Type} (l : List α) (f : α → BVec) (g : α → Nat)
+    (h : ∀ x ∈ l, bsfWt (f x) ≤ g x) :
+    List.Forall₂ (fun p k => bsfWt p ≤ k) (l.map f) (l.map g) := by
+  induction l with
+  | nil => exact .nil
+  | cons x xs ih =>
+    exact .cons (h x (by simp)) (ih fun y hy => h y (by simp [hy]))
+
+/-- `ChainBound` from: the recovery component is the XOR of the path operators of the chosen pairs,
+    every path weighs at most its pair's distance, and the total distance of the chosen pairs is at
+    most `alt ≤ wt (error component)` -/
+theorem chainBound_of_pairs {α : Type} (n : Nat) (pairs : List α) (pathOf : α → BVec) (distOf : α → Nat)
+    (alt : Nat) (rc ec : BVec) (hrc : rc = xorAll (2 * n) (pairs.map pathOf))
+    (hlen : ∀ x ∈ pairs, (pathOf x).length = 2 * n)
+    (hw : ∀ x ∈ pairs, bsfWt (pathOf x) ≤ distOf x)
+    (hmin : (pairs.map distOf).sum ≤ alt) (halt : alt ≤ bsfWt ec) : ChainBound n rc ec :=
+  ⟨pairs.map pathOf, pairs.map distOf, alt, hrc,
+    fun p hp => by obtain ⟨x, hx, rfl⟩ := List.mem_map.mp hp; exact hlen x hx,
+    forall₂_map_of_forall pairs pathOf distOf hw, hmin, halt⟩
+
+theorem zHalf_zeros_two_mul (n : Nat) : zHalf (zeros (2 * n)) = zeros n := by
+  simp [zHalf, zeros]; omega
+
+theorem xHalf_zeros_two_mul (n : Nat) : xHalf (zeros (2 * n)) = zeros n := by
+  simp [xHalf, zeros]; omega
+
+/-- an operator whose X half is that of `vp`, where `vp` has a zero Z half, has X-component `vp` -/
+theorem xPart_eq_of_halves (n : Nat) (r vp : BVec) (hr : r.length = 2 * n)
+    (hx : xHalf r = xHalf vp) (hz : zHalf vp = zeros n) : xPart r = vp := by
+  unfold xPart
+  rw [zHalf_len r n hr, hx, ← hz, half_append]
+
+theorem zPart_eq_of_halves (n : Nat) (r vd : BVec) (hr : r.length = 2 * n)
+    (hz : zHalf r = zHalf vd) (hx : xHalf vd = zeros n) : zPart r = vd := by
+  unfold zPart
+  rw [xHalf_len r n hr, hz, ← hx, half_append]
+
 end Qec.MwpmReduce
